@@ -1,15 +1,24 @@
 # C08 — snapshotter: metadata, directories and backend mounts in step
 PROPS["C08"] = dict(
     props_file="Properties/C08.v",
-    harnesses=[dict(cmd="snap", mod="root", model="Model.Snap", quick=250, thorough=5000, shard=21, coq_jobs=12,
-                    require=["op.prepare", "op.prepare.target", "op.view", "op.commit", "op.mounts", "op.remove", "op.cleanup",
-                             "op.update", "op.close", "cfg.async", "cfg.sync", "fault.mount"])],
+    harnesses=[
+        dict(cmd="snap", mod="root", model="Model.Snap", quick=250, thorough=5000, shard=21, coq_jobs=12,
+             require=["op.prepare", "op.prepare.target", "op.view", "op.commit", "op.mounts", "op.remove", "op.cleanup",
+                      "op.update", "op.close", "cfg.async", "cfg.sync", "fault.mount"]),
+        # the same histories evaluated on the CONCURRENT machine run by a single thread (ties Model/SnapConc.v to the code)
+        dict(cmd="snap", mod="root", model="Model.SnapConc", quick=60, thorough=1500, shard=10, coq_jobs=12,
+             require=["op.prepare.target", "op.remove", "op.cleanup"]),
+        # 2-4 truly concurrent callers, oracle only; thorough tier also builds it with -race
+        dict(cmd="snapconc", mod="root", quick=120, thorough=4000, race=600,
+             require=["threads.2", "threads.3", "threads.4", "overlapping-calls", "class.prepare.exists", "class.remove.ok"]),
+    ],
     rule="random histories (6-28 calls) of Prepare(with/without target)/View/Commit/Mounts/Remove/Cleanup/Update/Stat/Close over 8 names "
          "and a growing parent graph, sync or async removal, each call carrying the scripted results of the backend Mount/Check/Unmount; "
          "non-trivial = at least one successful remote mount, one live unmount and >= 4 op kinds; distinct = distinct (config, ops, outputs)",
     assumptions=[
-        "bolt transactions are atomic and serialised; every API call is modelled as one atomic op (the sub-steps of a call are separate "
-        "functions of the model, but histories interleave whole calls only)",
+        "bolt transactions are atomic and serialised (one writer); sequential theorems take whole calls as ops, the concurrent theorems "
+        "(C08_conc_*) take every interleaving of the calls' atomic segments (transaction / single backend call / single RemoveAll); "
+        "Close is taken at quiescence only",
         "os.MkdirTemp/Rename/RemoveAll/Stat succeed or fail only as the model says (rename fails iff the target exists); no I/O errors",
         "the backend FileSystem is the harness's recording fake shaped after fs/fs.go: Mount failure registers nothing, Check/Unmount of an "
         "unregistered mountpoint fail, a failed Unmount leaves the mountpoint registered",
@@ -18,7 +27,7 @@ PROPS["C08"] = dict(
     level_text="Coq theorems over every history of snapshotter calls and every assignment of backend Mount/Check/Unmount results on the model "
                "of snapshot/snapshot.go + containerd snapshots/storage (invariant by induction over fold_left step). "
                "The model is run against snapshot.NewSnapshotter with a recording FileSystem on random histories every run.",
-    level_note="Model (coq/Model/Snap.v) is hand-written; API calls are atomic ops (no interleaving inside a call); bolt, the os directory "
+    level_note="Models (coq/Model/Snap.v, SnapConc.v) are hand-written; concurrency is proved at segment granularity and exercised with 2-4 real goroutines (oracle only, -race in thorough); remote_has_mount is sequential only (under concurrency it needs callers not to reuse a key that is in flight); bolt, the os directory "
                "operations and the backend are modelled by contract; real mount(2), d_type/userxattr probing are outside the model.",
     technique="Coq proof: invariant preserved by every op under every fault script, lifted to all reachable states; correspondence by vm_compute on observed histories",
     trusted=["snapshot/snapshot.go and containerd core/snapshots/storage are modelled by hand in coq/Model/Snap.v; tie = per-call result class, "
